@@ -278,6 +278,14 @@ def corruptions(ref, root='/work/plt', tier='quick', want=None):
                     lines[ln] = lines[ln].replace('(', '').replace('0', 'o').replace('1', 'l').replace('2', 'z').replace('3', 'e').replace('4', 'a') + 'x'
                 n.s = '\n'.join(lines)
             out.append(Corruption('L%d Cell_H %s %d garbled' % (l, what, ln), 'cellh-line', garble))
+        # ---- 10. the level header's own component count disagrees with the FABs (and the Header)
+        for nnf in [ref.nf + 1] + ([ref.nf - 1] if ref.nf > 1 else []):
+            def cellnf(fs, ctx, cpath=cpath, ln=L['nf'], nnf=nnf):
+                n = fs.lookup(cpath)
+                lines = n.s.split('\n')
+                lines[ln] = str(nnf)
+                n.s = '\n'.join(lines)
+            out.append(Corruption('L%d Cell_H component count %d instead of %d' % (l, nnf, ref.nf), 'cellh-nf', cellnf))
         for b in range(len(ref.boxes[l])):
             def nooff(fs, ctx, b=b, cpath=cpath, ln=L['fabs'][b]):
                 n = fs.lookup(cpath)
